@@ -88,7 +88,7 @@ Prune(a, b) ==
      /\ \A g \in gone : mt[g] = 0 \/ mt[g] \in gone
      /\ LET p == prv[a] x == nxt[b]
             f0 == [nxt |-> [nxt EXCEPT ![p] = x, ![b] = 0], prv |-> [prv EXCEPT ![a] = 0], tl |-> tl]
-            f1 == FixTail(f0, p)
+            f1 == IF x = 0 THEN FixTail(f0, p) ELSE f0          \* the tail is looked for again only when the pruned tokens ended the chain
             f2 == IF x # 0 THEN [f1 EXCEPT !.prv[x] = p] ELSE f1 IN
         nxt' = f2.nxt /\ prv' = f2.prv /\ tl' = f2.tl /\ used' = used \ gone
   /\ UNCHANGED <<chd, st, ln, mt, ty>> /\ Log(R([op |-> "prune", a |-> a, b |-> b]))
